@@ -35,6 +35,18 @@
 (*  Parse      raw.strip(), the comma splitter, the pipe splitter (both    *)
 (*             absorb adjacent blanks), ParseAtom on every piece.          *)
 (*                                                                         *)
+(* Format is a function of the ABSTRACT structure only: an atom is a       *)
+(* record, it has no key order, no container types and no sizes (payload   *)
+(* text is an id).  What a concrete Python input has beyond that -- the    *)
+(* insertion order of the dict keys, list vs tuple, the length of a name,  *)
+(* the number of digits of an epoch -- is a dimension of the               *)
+(* CONCRETIZATION in c13.py: every key order, container type and size must *)
+(* give the token string Format predicts, and equal structures equal       *)
+(* strings.  The one concrete component that is modelled, to show that TLC *)
+(* catches a formatter that looks at it, is the key order `kord` (a        *)
+(* permutation of the four optional parts) with the negative control       *)
+(* FormatInKeyOrder (formatter walks dep.items(): seeded change C13-seedC).*)
+(*                                                                         *)
 (* Model checking: closed enumeration.  The state is a relation with ONE   *)
 (* focus atom ranging over every combination of the independent optional   *)
 (* parts (qualifier x {none, 5 operators} x arch lists of 1..MaxArch plain/*)
@@ -66,6 +78,9 @@
 (*                                                    -> Inverse violated  *)
 (*   PipeFirst = TRUE          (parser splits at '|' before ',')           *)
 (*                                                    -> Inverse violated  *)
+(*   FormatInKeyOrder = TRUE   (formatter emits the optional parts in the  *)
+(*                              key order of the input, KeyOrders = all 24)*)
+(*                              -> FormatIgnoresKeyOrder, NoWarning        *)
 (* Not modelled: characters inside a payload token (sampled by the         *)
 (* harness); lower-casing of profile names (identity on the domain: D3).   *)
 (***************************************************************************)
@@ -77,14 +92,17 @@ CONSTANTS MaxConj, MaxAlt,       \* list shape bounds
           MaxGroups, MaxTerms,   \* restriction formula bounds
           OpIds,                 \* subset of 1..5
           CtxKinds,              \* subset of {"bare", "full"}
+          KeyOrders,             \* key orders of the concrete input (permutations of <<"q","v","a","r">>)
           Emit,                  \* TRUE: print CASE lines
           RestrictionsFirst,     \* negative control (formatter)
           IgnoreNegation,        \* negative control (parser)
-          PipeFirst              \* negative control (parser)
+          PipeFirst,             \* negative control (parser)
+          FormatInKeyOrder       \* negative control (formatter)
 
 VARIABLES rel,                   \* the relation built so far
-          ctx                    \* kind of the context atoms of this relation
-vars == <<rel, ctx>>
+          ctx,                   \* kind of the context atoms of this relation
+          kord                   \* key insertion order of the concrete dicts (no part of the structure)
+vars == <<rel, ctx, kord>>
 
 Bad == -1                        \* "payload is not a single token of the expected kind"
 
@@ -147,6 +165,18 @@ FmtAtom(a)  == <<Tk("name", a.name)>> \o FmtQual(a) \o FmtVer(a)                
                \o (IF RestrictionsFirst THEN FmtRestr(a) \o FmtArch(a) ELSE FmtArch(a) \o FmtRestr(a))
 FmtAlts(alts) == PJoin([j \in 1..Len(alts) |-> FmtAtom(alts[j])], <<SP, PIPE, SP>>)   \* ' | '.join
 Format(r)     == PJoin([i \in 1..Len(r) |-> FmtAlts(r[i])], <<COMMA, SP>>)            \* ', '.join
+
+\* the formatter applied to a CONCRETE input: structure + key order.  It must not look at the order.
+CanonOrder == <<"q", "v", "a", "r">>
+OneKeyOrder == {CanonOrder}
+AllKeyOrders == {o \in [1..4 -> {"q", "v", "a", "r"}] : \A i, j \in 1..4 : i # j => o[i] # o[j]}
+FmtPart(a, k) == CASE k = "q" -> FmtQual(a) [] k = "v" -> FmtVer(a) [] k = "a" -> FmtArch(a) [] k = "r" -> FmtRestr(a)
+FmtAtomK(a, ord) == IF FormatInKeyOrder
+                    THEN <<Tk("name", a.name)>> \o FmtPart(a, ord[1]) \o FmtPart(a, ord[2])
+                                               \o FmtPart(a, ord[3]) \o FmtPart(a, ord[4])
+                    ELSE FmtAtom(a)
+FmtAltsK(alts, ord) == PJoin([j \in 1..Len(alts) |-> FmtAtomK(alts[j], ord)], <<SP, PIPE, SP>>)
+FormatK(r, ord)     == PJoin([i \in 1..Len(r) |-> FmtAltsK(r[i], ord)], <<COMMA, SP>>)
 
 \* a blank token is a maximal blank run; the formatter never starts or ends with one
 TokWellFormed(t) == /\ \A i \in 1..(Len(t) - 1) : ~(t[i].k = "sp" /\ t[i + 1].k = "sp")
@@ -292,10 +322,11 @@ Renumber(r) ==
 
 \* [R: the relation with ids assigned, f: Format(R), p: Parse(f)]
 Derive(r) == LET rr == Renumber(r)
-                 f  == Format(rr)
+                 f  == FormatK(rr, kord)
              IN [R |-> rr, f |-> f, p |-> Parse(f)]
 
 Init == /\ ctx \in CtxKinds
+        /\ kord \in KeyOrders
         /\ rel \in {<<<<a>>>> : a \in FocusAtoms}
 
 \* grow the relation around the focus atom with context atoms, on either side
@@ -310,7 +341,7 @@ PrependConj == /\ Len(rel) < MaxConj
                /\ rel' = <<<<CtxAtom(ctx)>>>> \o rel
 Next == /\ NAtoms(rel) < MaxAtoms
         /\ (AppendAlt \/ PrependAlt \/ AppendConj \/ PrependConj)
-        /\ UNCHANGED ctx
+        /\ UNCHANGED <<ctx, kord>>
 Spec == Init /\ [][Next]_vars
 
 ----------------------------------------------------------------------------
@@ -325,6 +356,7 @@ NoWarningOf(d)  == ~d.p.warn
 StableOf(d)     == Format(d.p.rel) = d.f              \* Format(Parse(Format(r))) = Format(r)
 
 \* named invariants (small configurations, negative controls)
+FormatIgnoresKeyOrder == FormatK(Renumber(rel), kord) = Format(Renumber(rel))
 TokensWellFormed == WellFormedOf(Derive(rel))
 Inverse          == InverseOf(Derive(rel))
 NoWarning        == NoWarningOf(Derive(rel))
